@@ -22,4 +22,7 @@ core::RunResult run_tree(const core::Plan &plan, bool log);
 core::Plan gen_auth(uint64_t seed, bool thorough);
 core::RunResult run_auth(const core::Plan &plan, bool log);
 
+core::Plan gen_oomlib(uint64_t seed, bool thorough);
+core::RunResult run_oomlib(const core::Plan &plan, bool log);
+
 }  // namespace libchecks
